@@ -633,9 +633,22 @@ func (hst *vfC09Hist) advance(t vfC09Fataler, k uint32) {
 
 // restart closes the module cleanly, lets down hours pass, and starts it again
 // on the same file with the same configuration.
-func (hst *vfC09Hist) restart(t vfC09Fataler, down uint32) {
-	hst.logf("restart{down=%dh}", down)
+func (hst *vfC09Hist) restart(t vfC09Fataler, down uint32) { hst.restartLate(t, 0, down) }
+
+// restartLate is a clean restart whose shutdown comes late hours after the last
+// run of the flush worker: the hour has changed but the worker (it looks once
+// a second) has not seen it yet.  What was counted stays in its own hour.
+func (hst *vfC09Hist) restartLate(t vfC09Fataler, late, down uint32) {
+	hst.logf("restart{late=%dh,down=%dh}", late, down)
 	cur := hst.m.hours[hst.m.now]
+	if late > 0 {
+		hst.m.now += late
+		hst.x.clock.Store(hst.m.now)
+		hst.flags["shutdown_before_flush_saw_the_new_hour"] = true
+		if cur != nil {
+			hst.flags["shutdown_before_flush_saw_the_new_hour_with_data"] = true
+		}
+	}
 	err := hst.x.s.Close()
 	if err != nil {
 		t.Fatalf("clean shutdown failed: %v\nhistory: %s", err, hst.tail())
@@ -974,7 +987,8 @@ func TestVFC09History(t *testing.T) {
 				hst.advance(t, 0)
 			},
 			"restart": func(t *rapid.T) {
-				hst.restart(t, rapid.SampledFrom([]uint32{0, 0, 0, 0, 1, 2, 24, 30, 800}).Draw(t, "down_hours"))
+				late := rapid.SampledFrom([]uint32{0, 0, 0, 1, 1, 2, 25}).Draw(t, "late_hours")
+				hst.restartLate(t, late, rapid.SampledFrom([]uint32{0, 0, 0, 0, 1, 2, 24, 30, 800}).Draw(t, "down_hours"))
 			},
 			"put_config": func(t *rapid.T) {
 				switch rapid.IntRange(0, 11).Draw(t, "bad") {
